@@ -81,7 +81,8 @@ func (s *Server) Requests() []string {
 }
 
 // Menu is the list of deviations.
-var Menu = []string{"", "empty", "truncated-half", "truncated-line1", "truncated-line2", "oversize", "non-utf8", "wrong-content", "http-404", "http-500", "conn-reset", "garbage-json", "extra-newlines"}
+var Menu = []string{"", "empty", "truncated-half", "truncated-line1", "truncated-line2", "oversize", "non-utf8", "wrong-content", "http-404", "http-500", "conn-reset", "garbage-json", "extra-newlines",
+	"json-null", "json-empty-object", "json-negative-size", "json-odd-hex", "json-nested-nulls", "one-byte", "thirty-one-bytes", "tile-header-only", "tile-huge-count", "drop-last-byte", "append-byte", "zeros-same-length", "http-204", "http-302-no-location"}
 
 var errReset = errors.New("verif: connection reset by peer")
 
@@ -299,6 +300,37 @@ func (s *Server) RoundTrip(r *http.Request) (*http.Response, error) {
 		return mk(200, []byte(`{"signedTreeHead": 5, "treeID": ["x"], "hashes": ["zz", 7, null], "inactiveShards": [null, {"treeID": 3}]}`))
 	case "extra-newlines":
 		return mk(200, append(append([]byte("\n\n"), body...), '\n', '\n'))
+	case "json-null":
+		return mk(200, []byte("null"))
+	case "json-empty-object":
+		return mk(200, []byte("{}"))
+	case "json-negative-size":
+		return mk(200, []byte(`{"signedTreeHead":"x","treeID":"` + s.TreeID + `","treeSize":-5,"rootHash":"zz","inactiveShards":[{"treeID":"` + s.TreeID + `","treeSize":-1,"signedTreeHead":""}],"hashes":[]}`))
+	case "json-odd-hex":
+		return mk(200, []byte(`{"hashes":["abc","","0g"],"signedTreeHead":"","treeID":"` + s.TreeID + `"}`))
+	case "json-nested-nulls":
+		return mk(200, []byte(`{"hashes":null,"inactiveShards":null,"signedTreeHead":null,"treeID":null,"treeSize":null}`))
+	case "one-byte":
+		return mk(200, []byte{0x01})
+	case "thirty-one-bytes":
+		return mk(200, bytes.Repeat([]byte{0x5a}, 31))
+	case "tile-header-only":
+		return mk(200, []byte("32\n"))
+	case "tile-huge-count":
+		return mk(200, []byte("32\n65535\nAAAA\n"))
+	case "drop-last-byte":
+		if len(body) > 0 {
+			return mk(code, body[:len(body)-1])
+		}
+		return mk(code, body)
+	case "append-byte":
+		return mk(code, append(append([]byte{}, body...), 'Z'))
+	case "zeros-same-length":
+		return mk(code, make([]byte, len(body)))
+	case "http-204":
+		return mk(204, nil)
+	case "http-302-no-location":
+		return mk(302, nil)
 	}
 	return mk(code, body)
 }
